@@ -83,7 +83,7 @@ class C08(Check):
                        "unfiltered one; distinct = SHA1 of the instance")
 
     def budget(self):
-        return 160 if self.tier == "quick" else 1200
+        return 600 if self.tier == "quick" else 3000
 
     def search_budget(self):
         return 150 if self.tier == "quick" else 1500
@@ -110,6 +110,15 @@ class C08(Check):
                     for o in job:
                         if rng.random() < 0.5:
                             o[1] = (1 << 24) + rng.randint(-2, 3)
+            elif rng.random() < 0.3:
+                # the same instance on a long time axis (nanoseconds instead of seconds): every duration is
+                # multiplied by a large unit and perturbed by a few ticks, so starts and earliest completions
+                # differ by amounts far below any relative tolerance
+                unit = rng.choice([10 ** 9, 10 ** 12, 1 << 53])
+                for job in spec:
+                    for o in job:
+                        o[1] = o[1] * unit + rng.randint(0, 3)
+                self.note("family_long_time_axis")
             case = {"spec": spec}
             if rng.random() < 0.35:
                 # the dispatcher used for the search has an abandoned episode behind it
